@@ -100,6 +100,21 @@ def generate(rng, i):
             keys = [rng.randrange(n) for _ in range(rng.randint(1, 4))]
             script.append({"op": "query", "keys": keys, "signs": [rng.choice([1, -1, 0, 2.5, -0.5]) for _ in keys],
                            "by_string": rng.random() < 0.3})
+    if mode in ("direct", "notify"):
+        # late prints: a quote for a key that was discontinued earlier in the script is stamped *before* that
+        # discontinuation (a feed delivering out of order) - dead stays dead whatever the stamp says; and now and then a
+        # quote for a live book carries an older stamp too - the most recently processed quote rules
+        dead_at = {}
+        for op in script:
+            if op["op"] == "disc" and op["k"] not in dead_at:
+                dead_at[op["k"]] = core.parse_t(op["t"])
+            elif op["op"] == "quote":
+                if op["k"] in dead_at and rng.random() < 0.5:
+                    op["t"] = core.iso(dead_at[op["k"]] - timedelta(seconds=rng.choice([1, 3600, 86400])))
+                    op["late_print"] = True
+                elif op["k"] not in dead_at and rng.random() < 0.04:
+                    op["t"] = core.iso(core.parse_t(op["t"]) - timedelta(seconds=rng.choice([1, 3600])))
+                    op["late_print"] = True
     chains = [k for k, s in enumerate(specs) if s["kind"] == "chain"]
     if chains and mode in ("direct", "notify") and i % 3 == 1:
         # a chain over a user-defined future with an intraday cut-off (noon of the 15th), looked up on a roll day
@@ -218,6 +233,8 @@ def _execute_episode(sc, clock0):
                     mb["hist"].append((t, op["bid"], op["ask"]))
                 else:
                     probe("revival_attempt")
+                    if op.get("late_print"):
+                        probe("revival_attempt_stamped_before_the_discontinuation")
                 if lead is not None:
                     probe("chain_quote_delivered_in_an_episode")
             else:
